@@ -49,6 +49,24 @@ type ByteStr struct {
 	// Num in exactly len(B) digits (zero padded or with a non-zero leading
 	// digit). Two such strings of equal length compare like their numbers.
 	Num *Term
+	// lazy materialisation: B is nil until bytes() is called
+	N   int
+	mat func() []Value
+}
+
+func (bs *ByteStr) bytes() []Value {
+	if bs.B == nil && bs.mat != nil {
+		bs.B = bs.mat()
+		bs.mat = nil
+	}
+	return bs.B
+}
+
+func (bs *ByteStr) Len() int {
+	if bs.B == nil && bs.mat != nil {
+		return bs.N
+	}
+	return len(bs.B)
 }
 
 // OpaqueStr is a string whose content is not modelled; two opaque strings are
@@ -305,7 +323,7 @@ func valString(v Value) string {
 	case *ByteStr:
 		var sb strings.Builder
 		sb.WriteString("bytes[")
-		for i, b := range v.B {
+		for i, b := range v.bytes() {
 			if i > 0 {
 				sb.WriteString(" ")
 			}
